@@ -280,6 +280,11 @@ class Mode:
                         if not self._caught("KeyError", cov):
                             res.raises.add(Esc("KeyError", fn.qualname, line))
                         continue
+                    # library semantics: set.union(*xs) / set.intersection(*xs) / reduce(f, xs) need a first operand
+                    if (op(f) == "attr" and f[1] in (("builtin", "set"), ("builtin", "frozenset")) and f[2] in ("union", "intersection", "difference") and c[2] and op(c[2][0]) == "star") or (op(f) == "ext" and f[1] == "functools.reduce" and len(c[2]) == 2):
+                        if not self._caught("TypeError", cov):
+                            res.raises.add(Esc("TypeError", fn.qualname, line, ("empty-iterable", show(c)[:50])))
+                        continue
                     callee = self.resolve(fn, c)
                     if callee is None:
                         continue
